@@ -178,7 +178,16 @@ ShadowProg(nm, i) ==
     [] i = 24 -> <<G, Try(<<Thr(S("e"))>>, TRUE, nm, <<Asg(nm, Id("g")), Ret(UU)>>, FALSE, <<>>)>>
     [] i = 25 -> <<G, Def("r", UU), Ret(Arr(<<Id("r"), UU>>))>>       \* no shadowing at all: folding must give the builtin's value
     [] i = 26 -> <<G, Def("f", Fn0(<<Ret(UU)>>)), Ret(Arr(<<C0(Id("f")), Cond(T, UU, I(0))>>))>>
-NShadow == 26
+    \* a constant in scope makes the compiler fold expressions that mention it (second folding path)
+    [] i = 27 -> <<G, Def(nm, Id("g")), Const("k", S("!")), If(T, <<Ret(Bin("+", UU, Id("k")))>>, <<>>), Ret(I(0))>>
+    [] i = 28 -> <<G, Def(nm, Id("g")), Const("k", S("!")), For(<<Def("i", I(0))>>, Bin("<", Id("i"), I(1)), <<Inc("i")>>, <<Ret(Bin("+", UU, Id("k")))>>), Ret(I(0))>>
+    [] i = 29 -> <<G, Def(nm, Id("g")), Const("k", S("!")), Try(<<Ret(Bin("+", UU, Id("k")))>>, FALSE, "", <<>>, TRUE, <<>>)>>
+    [] i = 30 -> <<G, Const("k", S("!")), Def("f", Fn(<<nm>>, FALSE, <<If(T, <<Ret(Bin("+", UU, Id("k")))>>, <<>>), Ret(I(0))>>)), Ret(C1(Id("f"), Id("g")))>>
+    [] i = 31 -> <<G, Const("k", S("!")), Def(nm, Id("g")), Ret(Bin("+", UU, Id("k")))>>
+    [] i = 32 -> <<G, Def("f", Fn0(<<Const("k", S("!")), Def(nm, Id("g")), If(T, <<If(T, <<Ret(Bin("+", UU, Id("k")))>>, <<>>)>>, <<>>), Ret(I(0))>>)), Ret(C0(Id("f")))>>
+    [] i = 33 -> <<G, Const("k", S("!")), If(T, <<Def(nm, Id("g")), Ret(Bin("+", UU, Id("k")))>>, <<>>), Ret(I(0))>>
+    [] i = 34 -> <<G, Const("k", S("!")), Ret(Arr(<<UU, Id("k")>>))>>      \* no shadowing, const path folds the builtin
+NShadow == 34
 \* forms whose meaning (a param without argument) cannot be called with UU
 ShadowIdx == {x \in [f : {"shadow"}, nm : ShadowNames, i : 1..NShadow] : ~(x.i = 21)} \cup [f : {"shadow"}, nm : {"len"}, i : {21}]
 
@@ -266,17 +275,22 @@ ModMain(site) ==
                                Cond(Bin("==", Sel(Id("b"), "d1"), U), S("-"), Sel(Sel(Id("b"), "d1"), "n"))>>))>>
     [] site = 6 -> <<Def("b", Import("m2")), Def("a", Import("m1")),
                      Ret(Arr(<<Sel(Id("a"), "n"), Cond(Bin("==", Sel(Id("a"), "d1"), U), S("-"), Sel(Sel(Id("a"), "d1"), "n"))>>))>>
-    [] site = 7 -> <<Def("f", Fn0(<<Def("m", Import("m1")), Cmp("c", "+", I(1)), AsgS(Id("m"), "c", Id("c")), Ret(Sel(Id("m"), "c"))>>)),
-                     Def("c", I(0)), Ret(I(0))>>      \* never called; c declared later: unresolved inside f is a compile error... avoided: see ModIdx
-ModIdx == [f : {"mod"}, g : 1..9, site : 1..6]
-ModProg(c) == [P0(ModMain(c.site)) EXCEPT !.mods = ModsOf(c.g)]
+    \* the first import of the module executes inside a function run by the host through an Invoker
+    [] site = 7 -> <<Global(<<"cbcall">>), Def("f", Fn(<<"v">>, FALSE, <<Def("m", Import("m1")), AsgS(Id("m"), "c", Bin("+", Sel(Id("m"), "c"), Id("v"))), Ret(Sel(Id("m"), "c"))>>)),
+                     Def("a", Call(Id("cbcall"), <<Id("f"), I(1)>>)), Def("b", Call(Id("cbcall"), <<Id("f"), I(2)>>)),
+                     Ret(Arr(<<Id("a"), Id("b"), Sel(Import("m1"), "c"), C1(Id("f"), I(4))>>))>>
+    [] site = 8 -> <<Global(<<"cbcall", "cbcall2">>), Def("f", Fn0(<<Ret(Import("m2"))>>)), Def("x", Call(Id("cbcall2"), <<Id("f")>>)), AsgS(Id("x"), "c", I(8)),
+                     Def("g", Fn0(<<Ret(Sel(Import("m2"), "c"))>>)), Ret(Arr(<<Call(Id("cbcall"), <<Id("g")>>), Sel(Import("m2"), "c"), Sel(Import("m1"), "n")>>))>>
+ModIdx == [f : {"mod"}, g : 1..9, site : 1..8]
+HostGlobals == [x \in {"cbcall", "cbcall2"} |-> VBi(x)]
+ModProg(c) == [P0(ModMain(c.site)) EXCEPT !.mods = ModsOf(c.g), !.globals = IF c.site \in {7, 8} THEN HostGlobals ELSE <<>>]
 \* static verdict: does the compiler have to refuse (cycle / unknown module reachable from an import expression of the main script)
 RECURSIVE Reach(_,_,_)
 Reach(g, todo, seen) == IF todo = {} THEN seen
                         ELSE LET x == CHOOSE y \in todo : TRUE
                                  d == IF x \in {"m1", "m2", "m3"} THEN SeqSet(GraphDeps(g)[CASE x = "m1" -> 1 [] x = "m2" -> 2 [] x = "m3" -> 3]) ELSE {}
                              IN Reach(g, (todo \cup d) \ (seen \cup {x}), seen \cup {x})
-MainImports(site) == CASE site \in {1, 2} -> {"m1"} [] site = 3 -> {"m1", "m2"} [] site = 4 -> {"m2"} [] site = 5 -> {"m1", "m2", "m3"} [] site = 6 -> {"m1", "m2"}
+MainImports(site) == CASE site \in {1, 2, 7} -> {"m1"} [] site = 8 -> {"m1", "m2"} [] site = 3 -> {"m1", "m2"} [] site = 4 -> {"m2"} [] site = 5 -> {"m1", "m2", "m3"} [] site = 6 -> {"m1", "m2"}
 ModRefused(c) == LET r == Reach(c.g, MainImports(c.site), {}) IN
                  \/ "nope" \in r
                  \/ (c.g = 5 /\ {"m1", "m2"} \cap r # {}) \/ (c.g = 6 /\ "m1" \in r) \/ (c.g = 9 /\ {"m1", "m2", "m3"} \cap r # {})
@@ -294,6 +308,8 @@ FragSeqs == <<
     ExprS(Call(Id("g"), <<I(1), I(2), I(3)>>)), ExprS(Id("c1"))>>,
   \* imports and state of the module object across fragments
   <<Def("m", Import("m1")), AsgS(Id("m"), "c", I(3)), Def("n", Import("m1")), ExprS(Sel(Id("n"), "c")), ExprS(Sel(Import("m1"), "n"))>>,
+  \* a module imported and changed, then another module imported for the first time, then the first one again
+  <<Def("m", Import("m1")), AsgS(Id("m"), "c", I(5)), Def("n", Import("m2")), ExprS(Sel(Import("m1"), "c")), ExprS(Arr(<<Sel(Id("n"), "n"), Sel(Id("m"), "c"), Sel(Import("m3"), "n")>>))>>,
   \* try statements and the variables they declare
   <<Def("r", Arr(<<>>)), Try(<<Thr(S("e"))>>, TRUE, "er", <<Asg("r", Bin("+", Id("r"), S("c")))>>, TRUE, <<Asg("r", Bin("+", Id("r"), S("f")))>>),
     Try(<<Asg("r", Bin("+", Id("r"), S("t")))>>, FALSE, "", <<>>, TRUE, <<Asg("r", Bin("+", Id("r"), S("g")))>>), ExprS(Id("r")), ExprS(C1(Id("len"), Id("r")))>>,
@@ -325,6 +341,83 @@ FragExp(c) == LET p == [P0(FragSeqs[c.s]) EXCEPT !.mods = ModsOf(1)]
                   r == FragRun(p.body, 1, Push(<<>>), st0, <<>>)
               IN [steps |-> r.res, log |-> [i \in 1..Len(r.st.log) |-> San(r.st.log[i], r.st)]]
 
+(* ------------------------------------------- episodes: feature histories *)
+\* A program is a sequence of episodes, each exercising one feature and logging what it
+\* observed; episode i uses names suffixed with i and may be wrapped in a function call
+\* (one frame deeper).  Defects that need a multi-step history inside one run (state
+\* left behind in frames, handlers, stack slots) show up as a wrong log entry of a later episode.
+Nm(b, i) == b \o ToString(i)
+Episode(k, i) ==
+  LET r == Nm("r", i)  g == Nm("g", i)  h == Nm("h", i)  a == Nm("a", i)  b == Nm("b", i)  x == Nm("x", i) IN
+  CASE k = 1 ->  \* recursion in statement position: result is undefined
+         <<Var(r), Asg(r, Fn(<<"n">>, FALSE, <<If(Bin("==", Id("n"), I(0)), <<Ret(I(5))>>, <<>>), ExprS(C1(Id(r), Bin("-", Id("n"), I(1))))>>)), Log(C1(Id(r), I(2)))>>
+    [] k = 2 ->  \* error thrown two frames down, caught here
+         <<Def(g, Fn0(<<Thr(S("x"))>>)), Def(h, Fn0(<<ExprS(C0(Id(g))), Ret(I(1))>>)),
+           Try(<<Log(C0(Id(h)))>>, TRUE, "e", <<Log(S("caught"))>>, FALSE, <<>>)>>
+    [] k = 3 ->  \* plain nested calls returning a value
+         <<Def(a, Fn0(<<Ret(I(42))>>)), Def(b, Fn0(<<Ret(C0(Id(a)))>>)), Log(C0(Id(b)))>>
+    [] k = 4 ->  \* return through finally inside a function
+         <<Def(a, Fn0(<<Try(<<Ret(I(1))>>, FALSE, "", <<>>, TRUE, <<Log(S("fin"))>>)>>)), Log(C0(Id(a)))>>
+    [] k = 5 ->  \* closure counter
+         <<Def(a, C0(Fn0(<<Def("n", I(0)), Ret(Fn0(<<Inc("n"), Ret(Id("n"))>>))>>))), ExprS(C0(Id(a))), Log(C0(Id(a)))>>
+    [] k = 6 ->  \* break out of a loop through finally
+         <<For(<<Def(x, I(0))>>, Bin("<", Id(x), I(3)), <<Inc(x)>>, <<Try(<<If(Bin("==", Id(x), I(1)), <<Brk>>, <<>>)>>, FALSE, "", <<>>, TRUE, <<Log(Id(x))>>)>>), Log(S("after"))>>
+    [] k = 7 ->  \* tail recursion
+         <<Var(r), Asg(r, Fn(<<"n", "acc">>, FALSE, <<If(Bin("==", Id("n"), I(0)), <<Ret(Id("acc"))>>, <<>>), Ret(Call(Id(r), <<Bin("-", Id("n"), I(1)), Bin("+", Id("acc"), Id("n"))>>))>>)), Log(Call(Id(r), <<I(3), I(0)>>))>>
+    [] k = 8 ->  \* variadic with spread
+         <<Def(a, Fn(<<"p", "q">>, TRUE, <<Ret(Arr(<<Id("p"), Id("q")>>))>>)), Log(CallS(Id(a), <<I(1), Arr(<<I(2), I(3)>>)>>))>>
+    [] k = 9 ->  \* runtime error in a nested function, caught at this level, then finally
+         <<Def(a, Fn(<<"z">>, FALSE, <<Ret(Bin("/", I(1), Id("z")))>>)), Try(<<Log(C1(Id(a), I(0)))>>, TRUE, "e", <<Log(C1(Id("isError"), Id("e")))>>, TRUE, <<Log(S("f9"))>>)>>
+    [] k = 10 -> \* statement-position recursion that throws at the bottom, caught outside
+         <<Var(r), Asg(r, Fn(<<"n">>, FALSE, <<If(Bin("==", Id("n"), I(0)), <<Thr(S("deep"))>>, <<>>), ExprS(C1(Id(r), Bin("-", Id("n"), I(1))))>>)),
+           Try(<<ExprS(C1(Id(r), I(2)))>>, TRUE, "e", <<Log(S("cq"))>>, FALSE, <<>>)>>
+    [] k = 11 -> \* one call returning a value
+         <<Def(a, Fn(<<"v">>, FALSE, <<Ret(Bin("+", Id("v"), I(1)))>>)), Log(C1(Id(a), I(10)))>>
+    [] k = 12 -> \* closures created in a for-in loop
+         <<Def(a, Arr(<<>>)), ForIn("_", "v", Arr(<<I(7), I(8)>>), <<Asg(a, Call(Id("append"), <<Id(a), Fn0(<<Ret(Id("v"))>>)>>))>>), Log(Arr(<<C0(Idx(Id(a), I(0))), C0(Idx(Id(a), I(1)))>>))>>
+    [] k = 13 -> \* try statement completing normally, then a second one leaving by an error
+         <<Try(<<Log(S("t1"))>>, FALSE, "", <<>>, TRUE, <<Log(S("f1"))>>), Try(<<Thr(S("y"))>>, TRUE, "e", <<Log(S("c2"))>>, TRUE, <<Log(S("f2"))>>)>>
+    [] k = 14 -> \* wrong number of arguments caught
+         <<Def(a, Fn(<<"p">>, FALSE, <<Ret(Id("p"))>>)), Try(<<Log(C0(Id(a)))>>, TRUE, "e", <<Log(S("nargs"))>>, FALSE, <<>>)>>
+NEpi == 14
+Wrapped(blk, i, w) == IF w = 0 THEN blk ELSE <<Def(Nm("w", i), Fn0(blk)), ExprS(C0(Id(Nm("w", i))))>>
+EpiProg(c) == LET RECURSIVE go(_)
+                  go(i) == IF i > Len(c.ks) THEN <<>> ELSE Wrapped(Episode(c.ks[i], i), i, c.ws[i]) \o go(i + 1)
+              IN go(1) \o <<Ret(I(0))>>
+EpiIdx == {[f |-> "epi", ks |-> <<k1, k2>>, ws |-> <<w1, w2>>] : k1 \in 1..NEpi, k2 \in 1..NEpi, w1 \in 0..1, w2 \in 0..1}
+          \cup (IF "epi3" \in Fams
+                THEN {[f |-> "epi", ks |-> <<k1, k2, k3>>, ws |-> <<w, w, 0>>] : k1 \in 1..NEpi, k2 \in 1..NEpi, k3 \in 1..NEpi, w \in 0..1}
+                ELSE {[f |-> "epi", ks |-> <<k1, k2, k3>>, ws |-> <<0, 1, 0>>] : k1 \in {1, 2, 9, 10, 13}, k2 \in 1..NEpi, k3 \in {3, 4, 7, 11}})
+
+(* ------------------------------------ C14: calling a script function from Go *)
+\* f is called three times, each time either inside the script or by the host through a pooled
+\* (cbcall) or an unpooled (cbcall2) Invoker; the reference semantics treats all three alike, so the
+\* expected observation is that of the in-script calls
+InvFns == <<
+  \* counter closure over a captured variable and a global
+  [pre |-> <<Global(<<"gv">>), Def("n", I(0)), Def("f", Fn(<<"d">>, FALSE, <<Cmp("n", "+", Id("d")), Asg("gv", Id("n")), Ret(Id("n"))>>))>>, args |-> << <<I(1)>>, <<I(2)>>, <<I(3)>> >>],
+  \* variadic packing
+  [pre |-> <<Def("f", Fn(<<"a", "b">>, TRUE, <<Ret(Arr(<<Id("a"), Id("b")>>))>>))>>, args |-> << <<I(1)>>, <<I(1), I(2)>>, <<I(1), I(2), I(3)>> >>],
+  \* recursion (not in tail position) and tail recursion
+  [pre |-> <<Var("f"), Asg("f", Fn(<<"k">>, FALSE, <<If(Bin("==", Id("k"), I(0)), <<Ret(I(0))>>, <<>>), Ret(Bin("+", Id("k"), C1(Id("f"), Bin("-", Id("k"), I(1)))))>>))>>, args |-> << <<I(0)>>, <<I(2)>>, <<I(3)>> >>],
+  \* throwing for some arguments
+  [pre |-> <<Def("f", Fn(<<"k">>, FALSE, <<If(Bin("==", Id("k"), I(2)), <<Thr(S("two"))>>, <<>>), Ret(Bin("*", Id("k"), I(10)))>>))>>, args |-> << <<I(1)>>, <<I(2)>>, <<I(3)>> >>],
+  \* importing a module and changing its state
+  [pre |-> <<Def("f", Fn(<<"k">>, FALSE, <<Def("m", Import("m1")), AsgS(Id("m"), "c", Bin("+", Sel(Id("m"), "c"), Id("k"))), Ret(Sel(Id("m"), "c"))>>))>>, args |-> << <<I(1)>>, <<I(2)>>, <<I(3)>> >>],
+  \* try / finally inside, logging
+  [pre |-> <<Def("f", Fn(<<"k">>, FALSE, <<Try(<<If(Bin("==", Id("k"), I(1)), <<Ret(S("early"))>>, <<>>), Log(Id("k"))>>, FALSE, "", <<>>, TRUE, <<Log(S("fin"))>>), Ret(Id("k"))>>))>>, args |-> << <<I(1)>>, <<I(2)>>, <<I(3)>> >>],
+  \* a function that itself calls the host to call another function (nested invokers)
+  [pre |-> <<Def("g", Fn(<<"k">>, FALSE, <<Ret(Bin("+", Id("k"), I(100)))>>)), Def("f", Fn(<<"k">>, FALSE, <<Ret(Call(Id("cbcall"), <<Id("g"), Id("k")>>))>>))>>, args |-> << <<I(1)>>, <<I(2)>>, <<I(3)>> >>]
+>>
+\* each call is wrapped in try/catch so that a thrown error is observed and the history continues
+InvCall(how, as, i) ==
+  LET call == CASE how = "in" -> Call(Id("f"), as) [] how = "cb" -> Call(Id("cbcall"), <<Id("f")>> \o as) [] how = "cb2" -> Call(Id("cbcall2"), <<Id("f")>> \o as)
+  IN Try(<<Log(call)>>, TRUE, "e", <<Log(Id("e"))>>, FALSE, <<>>)
+InvProg(c) == LET fd == InvFns[c.fn] IN
+  [P0(<<Global(<<"cbcall", "cbcall2">>)>> \o fd.pre \o [i \in 1..3 |-> InvCall(c.how[i], fd.args[i], i)] \o <<Ret(I(0))>>)
+    EXCEPT !.mods = ModsOf(1), !.globals = HostGlobals]
+InvIdx == [f : {"inv"}, fn : 1..Len(InvFns), how : [1..3 -> {"in", "cb", "cb2"}]]
+
 (* ---------------------------------------------------------- the states *)
 FamSeq(f) == CASE f = "closure" -> Closure [] f = "assign" -> Assign [] f = "const" -> ConstProgs
 ListIdx == UNION { {[f |-> x, i |-> i] : i \in 1..Len(FamSeq(x))} : x \in Fams \cap {"closure", "assign", "const"} }
@@ -339,6 +432,8 @@ AllIdx == ListIdx
           \cup (IF "dis" \in Fams THEN DisIdx \cup DisModIdx ELSE {})
           \cup (IF "mod" \in Fams THEN ModIdx ELSE {})
           \cup (IF "frag" \in Fams THEN FragIdx ELSE {})
+          \cup (IF "epi" \in Fams THEN EpiIdx ELSE {})
+          \cup (IF "inv" \in Fams THEN InvIdx ELSE {})
 ProgOf(c) == CASE c.f \in {"closure", "assign", "const"} -> P0(FamSeq(c.f)[c.i])
                [] c.f = "call" -> P0(CallProg(c))
                [] c.f = "rec" -> P0(RecProg(c))
@@ -351,6 +446,8 @@ ProgOf(c) == CASE c.f \in {"closure", "assign", "const"} -> P0(FamSeq(c.f)[c.i])
                [] c.f = "dismod" -> [DisModProg(c) EXCEPT !.disabled = c.d]
                [] c.f = "mod" -> ModProg(c)
                [] c.f = "frag" -> [P0(FragSeqs[c.s]) EXCEPT !.mods = ModsOf(1)]
+               [] c.f = "epi" -> P0(EpiProg(c))
+               [] c.f = "inv" -> InvProg(c)
 
 VARIABLES c, ph
 vars == <<c, ph>>
@@ -364,6 +461,8 @@ Modelled == (ph = 1 /\ c.f # "frag" /\ ~(c.f = "mod" /\ ModRefused(c))) => LET r
               (ProgRefs(ProgOf(c)) \cap ProgOf(c).disabled = {}) =>
               ~(r.o[1] = "thr" /\ r.o[2].name \in {"unmodelled-builtin-call", "diverge", "unresolved"})
 \* a script that never mentions a disabled builtin as a builtin behaves as without the disabled set
+\* C14 on the model: the observation does not depend on how the calls are made
+InvSame == (ph = 1 /\ c.f = "inv") => RunP(InvProg(c)).log = RunP(InvProg([c EXCEPT !.how = [i \in 1..3 |-> "in"]])).log
 \* a module body runs at most once per run: "load:m" occurs at most once in the log
 LoadOnce == (ph = 1 /\ c.f = "mod" /\ ~ModRefused(c)) =>
    LET l == RunP(ProgOf(c)).log IN \A m \in {"m1", "m2", "m3"} : Cardinality({i \in 1..Len(l) : l[i].t = "str" /\ l[i].v = "load:" \o m}) <= 1
